@@ -216,7 +216,11 @@ class VLoop(asyncio.BaseEventLoop):
         return list(self.errors)
 
 
-def new_loop(horizon: float = 60.0) -> VLoop:
+def new_loop(horizon: float = 60.0, cancel_order: str = "fifo") -> VLoop:
+    from . import determinism
+
+    determinism.install()
+    determinism.set_order(cancel_order)
     loop = VLoop(horizon=horizon)
     asyncio.set_event_loop(loop)
     return loop
